@@ -23,16 +23,15 @@ LEVEL_TEXT = ('Every clause is a Coq theorem about the model; two links of the d
               'to be the partial derivatives), volumes sum to signed area / total area of a counter-clockwise mesh, quadrature exactness against the Riemann '
               'integral (the monomial formula i!j!/(i+j+2)! is proved to be the iterated integral over the reference triangle; change of variables by the affine '
               'map), axisymmetric mode with 2 pi r spending one degree (tolerance and exact versions); (4) divergence theorem for polynomial vector fields on every '
-              'affine triangle (Green on the reference triangle + Piola pull-back) and on a mesh by cancellation of interior-edge fluxes, and exactness of the edge '
-              'quadrature sum at exact edge points. Tested only (L2): propagation of the 1e-11 error of the interpolated edge points through F in the edge sums; '
-              'the edge-list structure premise of the mesh divergence theorem (owned by C13).')
+              'affine triangle (Green on the reference triangle + Piola pull-back) and on a mesh by cancellation of interior-edge fluxes, with the edge-list premise derived from C13\'s create_edges theorems for consistently oriented manifold triangulations, and exactness of the edge '
+              'quadrature sum at exact edge points. Tested only (L2): propagation of the 1e-11 error of the interpolated edge points through F in the edge sums.')
 TECHNIQUE = ('Coq proof: vm_compute-checked exactness of the quadrature tables regenerated from the source text; proved certificate '
              'checkers run on the exact rational value of every runtime table (complete configuration set); lifting theorems over R '
              'for every affine element; PrimFloat correspondence for the geometric kernels')
 GEN = ['Tab_TriQuad', 'Tab_FsGeom']
-TARGETS = ['model/M_C03.vo', 'proofs/L_C03sn.vo', 'proofs/L_C03cert.vo', 'proofs/L_C03tab.vo', 'proofs/L_C03lift.vo', 'proofs/L_C03int.vo', 'proofs/L_C03div.vo']
+TARGETS = ['model/M_C03.vo', 'proofs/L_C03sn.vo', 'proofs/L_C03cert.vo', 'proofs/L_C03tab.vo', 'proofs/L_C03lift.vo', 'proofs/L_C03int.vo', 'proofs/L_C03div.vo', 'proofs/L_C03_C13.vo']
 COQ_FILES = ['base/Num.v', 'model/M_C03.v', 'proofs/L_C03sn.v', 'proofs/L_C03cert.v', 'proofs/L_C03tab.v', 'proofs/L_C03lift.v',
-             'proofs/L_C03int.v', 'proofs/L_C03div.v', 'props/P_C03.v']
+             'proofs/L_C03int.v', 'proofs/L_C03div.v', 'proofs/L_C03_C13.v', 'props/P_C03.v']
 TRUSTED = ['Coq 8.16.1 kernel + vm_compute (no native_compute)',
            'tools/vlib/tab_c03.py: extraction of the tabulated rules (decimal source text -> exact rationals) and of the index structure of the geometric kernels from the Python AST, fail closed',
            'harness: exact binary64 -> (mantissa, exponent) conversion of every runtime table, sharding of certificates, de-duplication of byte-identical tables',
@@ -43,7 +42,7 @@ TRUSTED = ['Coq 8.16.1 kernel + vm_compute (no native_compute)',
 ASSUMPTIONS = ['exact real arithmetic in the lifting theorems; table errors enter as the hypotheses RefIds/TriQuadExact/Gauss1dExact with the certified eps',
                'the integral over a physical triangle is jac times the Riemann integral over the reference triangle of the pulled-back integrand (affine change of variables taken as definition; signed with the vertex orientation)',
                'edge quadrature theorem is stated at the exact edge points A + s_q t (the certified 1-D shape tables put the interpolated points within 1e-11 relative of them)',
-               'mesh divergence theorem assumes the directed element edges are the boundary edges plus interior edges once in each direction (C13)']
+               'mesh divergence theorem: no directed vertex pair occurs twice and no element side is degenerate (checked on every L2 mesh); the create_edges model is C13\'s, tied to Mesh.create_edges by C13\'s correspondence and by the L2 premise check here']
 RULE = ('second-wave L2 additions per mesh: integrate_over_block on a proper non-prefix element subset, with a per-element parameter field, with a random state-variable field, and with an integrand using the primal field and its gradient (polynomial nodal fields, exact rational reference values); project_quadrature_field_to_element_field against the volume-weighted average and the exact element mean of monomials; edge integrals whose integrand multiplies the interpolated nodal field with the position; Surface.integrate_function_on_surface on the simplex mesh of every cartesian case; axisymmetric mode for every (order, bubble) combination in every tier. '
         'certificates: the complete set {order 1..5} x {bubble on/off} x {2-D degree 1..10}, {order 1..5} x {1-D degree 0..25}, all 1-D and 2-D rules, obtained by '
         'calling the implementation\'s constructors; one configuration = one distinct item. L2: seeded random Delaunay / graded / rotated / anisotropic / '
@@ -571,8 +570,23 @@ def l2_case(case):
     if mode == 'cartesian':
         d1 = case['degree1d']
         qr1 = QuadratureRule.create_quadrature_rule_1D(d1)
-        _, edges = Mesh.create_edges(onp.asarray(conns))
+        edgeConns, edges = Mesh.create_edges(onp.asarray(conns))
         bnd = onp.array([[e_[0], e_[1]] for e_ in edges if e_[2] < 0], dtype=int)
+        # hypotheses and conclusion of C03_faces_boundary_interior on the implementation's create_edges output:
+        # no directed vertex pair twice, no degenerate side, directed element sides = boundary rows + interior rows both ways
+        faces = [(int(c[p_]), int(c[(p_ + 1) % 3])) for c in conns for p_ in range(3)]
+        if len(set(faces)) != len(faces) or any(a_ == b_ for a_, b_ in faces):
+            bad.append('generated mesh is not a consistently oriented manifold triangulation (harness error)')
+        rhs = []
+        for ec, e_ in zip(onp.asarray(edgeConns), edges):
+            rhs.append((int(ec[0]), int(ec[1])))
+            if e_[2] >= 0:
+                rhs.append((int(ec[1]), int(ec[0])))
+        nev += 1
+        if sorted(rhs) != sorted(faces):
+            bad.append('create_edges: boundary rows plus interior rows in both directions are not the directed sides of the elements (premise of the mesh divergence theorem)')
+        if any(tuple(int(x) for x in (conns[e_[0]][e_[1]], conns[e_[0]][(e_[1] + 1) % 3])) != (int(ec[0]), int(ec[1])) for ec, e_ in zip(onp.asarray(edgeConns), edges)):
+            bad.append('create_edges: a row does not list the directed side of its left element')
         kmax = min(d1, 6)
         for _ in range(2):
             a, b = r.randrange(0, kmax + 1), 0
